@@ -70,6 +70,10 @@ coap_opt_parse(const coap_opt_t *opt, size_t length, coap_option_t *result) {
   /* fall through */
   case 13:
     ADVANCE_OPT_CHECK(opt,length,1);
+    if ((uint32_t)result->delta + (*opt & 0xff) > COAP_MAX_OPT) {
+      coap_log_debug("delta too large\n");
+      return 0;
+    }
     result->delta += *opt & 0xff;
     break;
 
